@@ -110,8 +110,12 @@ class LogfileHandler(mlzlog.LogfileHandler):
         super().doRollover()
         if self.max_days:
             # keep only the last max_days files
+            # only the log files of this handler: the directory may contain other
+            # files and directories (e.g. the comlog directory)
             with os.scandir(dirname(self.baseFilename)) as it:
-                files = sorted(entry.path for entry in it if entry.name != 'current')
+                files = sorted(entry.path for entry in it
+                               if entry.is_file() and entry.name.startswith(f'{self.rootname}-')
+                               and entry.name.endswith('.log'))
             for filepath in files[:-self.max_days]:
                 os.remove(filepath)
 
